@@ -15,7 +15,7 @@ From Arrai Require Import Base.Val Spec.SetAlg Eval.Interp.
 
 Fixpoint pat_nofb (p : pat) : bool :=
   match p with
-  | PVar _ | PWild | PExpr _ => true
+  | PVar _ | PWild | PExpr _ | PExprs _ => true
   | PArr items => forallb item_nofb items
   | PTup attrs => forallb (fun a => item_nofb (snd a)) attrs
   | PDict entries => forallb (fun a => item_nofb (snd a)) entries
@@ -32,7 +32,7 @@ with item_nofb (it : pitem) : bool :=
 Fixpoint pat_names (p : pat) : list name :=
   match p with
   | PVar x => [x]
-  | PWild | PExpr _ => []
+  | PWild | PExpr _ | PExprs _ => []
   | PArr items => flat_map item_names items
   | PTup attrs => flat_map (fun a => item_names (snd a)) attrs
   | PDict entries => flat_map (fun a => item_names (snd a)) entries
@@ -48,7 +48,7 @@ with item_names (it : pitem) : list name :=
 (* nesting depth *)
 Fixpoint pat_depth (p : pat) : nat :=
   match p with
-  | PVar _ | PWild | PExpr _ => O
+  | PVar _ | PWild | PExpr _ | PExprs _ => O
   | PArr items => S (list_max (map item_depth items))
   | PTup attrs => S (list_max (map (fun a => item_depth (snd a)) attrs))
   | PDict entries => S (list_max (map (fun a => item_depth (snd a)) entries))
@@ -156,6 +156,9 @@ Inductive rebuilds (rho s : env) : pat -> value -> Prop :=
 | RVar x v : env_get x s = Some v -> rebuilds rho s (PVar x) v
 | RWild v : rebuilds rho s PWild v
 | RExpr e a : evals rho e (D a) -> rebuilds rho s (PExpr e) (D a)
+| RExprs pre e suf a :        (* (e1, .., e, ..): the value of one alternative, those before it having values *)
+    Forall (fun e' => exists a', evals rho e' (D a')) pre -> evals rho e (D a) ->
+    rebuilds rho s (PExprs (pre ++ e :: suf)) (D a)
 | RArr items d xs :
     dense_array d = Some xs -> arr_rb (rebuilds rho s) s items xs -> rebuilds rho s (PArr items) (D d)
 | RTup attrs tv :
@@ -176,6 +179,15 @@ Definition env_equiv (a b : env) : Prop := forall x, env_get x a = env_get x b.
 
 Section Loops.
 Variables (ev : env -> expr -> res value) (bind : env -> pat -> value -> res env) (rho : env).
+
+Section WithB.
+Variable b : val.
+Fixpoint exprs_go (es : list expr) : res env :=
+  match es with
+  | [] => Err
+  | e :: es' => do w <- ev rho e; do a <- as_data w; if veqb a b then Ok [] else exprs_go es'
+  end.
+End WithB.
 
 Definition bind_item (acc : env) (it : pat) (x : value) : res env :=
   do sc <- bind rho it x;
